@@ -137,10 +137,49 @@ def _other_entry_first(src, own):
             guarded(fn, src if name == 'iterparse' or isinstance(src, str) else '\n'.join(src))
 
 
+def _scribble_tree(t):
+    if isinstance(t, Tree):
+        t.metadata.clear()
+        t.metadata['changed'] = 'by the caller'
+        if isinstance(t.node, tuple) and len(t.node) == 2 and isinstance(t.node[1], list):
+            t.node[1].insert(0, (':changed', 'by-the-caller'))
+            t.node[1][-1] = (':changed', ('c', [('/', 'caller')]))
+
+
+def _same_call_first(src, fn):
+    """What a call returns belongs to the caller.  For every third input (by a hash of the text) the same entry point is first
+    given the same text and the caller changes what it got back in place; the call under test must not notice."""
+    key = src if isinstance(src, str) else '\n'.join(src)
+    if zlib.crc32(('same:' + key).encode('utf-8', 'surrogatepass')) % 3:
+        return
+    if fn == 'parse':
+        ok, r = guarded(penman.parse, src)
+        if ok:
+            _scribble_tree(r)
+    elif fn == 'iterparse':
+        ok, r = guarded(lambda: list(penman.iterparse(src)))
+        if ok:
+            for x in r:
+                _scribble_tree(x)
+    elif fn == 'parse_triples':
+        ok, r = guarded(penman.parse_triples, src)
+        if ok and isinstance(r, list):
+            r.reverse()
+            r.append(('changed', ':by', 'the-caller'))
+    elif fn == 'decode':
+        ok, r = guarded(penman.decode, src)
+        if ok:
+            r.triples.reverse()
+            r.triples.append(('changed', ':by', 'the-caller'))
+            r.epidata.clear()
+            r.metadata['changed'] = 'by the caller'
+
+
 def tr_parse(text=None, fn='parse', lines=None):
     t = {'kind': 'parse', 'fn': fn, 'container': 'str' if lines is None else 'seq'}
     src = text if lines is None else lines
     _other_entry_first(src, fn)
+    _same_call_first(src, fn)
     if lines is None:
         t['text'] = text
     else:
@@ -163,6 +202,7 @@ def tr_parse(text=None, fn='parse', lines=None):
 
 def tr_ptriples(text):
     _other_entry_first(text, 'parse_triples')
+    _same_call_first(text, 'parse_triples')
     ok, r = guarded(penman.parse_triples, text)
     out = {'ok': True, 'exc': ''}
     if ok:
@@ -235,6 +275,12 @@ def tr_triples(ts, indent, variants=()):
     ok, r = guarded(penman.format_triples, ts, indent=indent)
     t['text'] = r if ok else 'EXC:' + excname(r)
     t['back'] = _ptri(t['text'])
+    # the list that was returned belongs to the caller: after changing it in place, reading the same text again gives the triples again
+    ok2, r2 = guarded(penman.parse_triples, t['text'])
+    if ok2 and isinstance(r2, list):
+        r2.reverse()
+        r2.append(('changed', ':by', 'the-caller'))
+    t['back2'] = _ptri(t['text'])
     t['variants'] = [_ptri(v) for v in variants]
     t['variant_texts'] = list(variants)
     return t
@@ -433,6 +479,7 @@ def tr_roundtrip(node, meta=None, model='default', mdl=None):
     ok, text = guarded(penman.format, tree, indent=None)
     if ok:
         codec = penman.PENMANCodec(model=m)
+        _same_call_first(text, 'decode')
         ok, enc = guarded(lambda: codec.encode(codec.decode(text)))
         t['enc'] = {'ok': True, 'exc': '', 'text': enc} if ok else _exc_out(enc)
     else:
